@@ -573,12 +573,50 @@ def gen_cases(chk):
     return cases
 
 
+def run_parallel(chk, payloads, timeout=3000):
+    """Start every worker at once with its payload on stdin (from a file) and collect the JSON lines.
+    (lib.run_workers_parallel hands a worker its payload only when its turn to be collected comes.)"""
+    import os
+    import subprocess
+    procs = []
+    for w, p in enumerate(payloads):
+        fin = os.path.join(chk.scratch, f"payload_{w}.json")
+        with open(fin, "w") as fh:
+            json.dump(p, fh)
+        fout = open(os.path.join(chk.scratch, f"out_{w}.jsonl"), "w+")
+        ferr = open(os.path.join(chk.scratch, f"err_{w}.txt"), "w+")
+        pr = subprocess.Popen([lib.PY, os.path.join(lib.VERIF, "harness", "drive/c14.py")],
+                              stdin=open(fin), stdout=fout, stderr=ferr, env=lib.child_env(), text=True)
+        procs.append((pr, fout, ferr))
+    res = []
+    for pr, fout, ferr in procs:
+        try:
+            pr.wait(timeout=timeout)
+        except subprocess.TimeoutExpired:
+            pr.kill()
+            pr.wait()
+        fout.seek(0)
+        ferr.seek(0)
+        rows = []
+        for line in fout.read().splitlines():
+            line = line.strip()
+            if line.startswith("{"):
+                try:
+                    rows.append(json.loads(line))
+                except Exception:
+                    pass
+        res.append((pr.returncode, rows, ferr.read()[-2000:]))
+        fout.close()
+        ferr.close()
+    return res
+
+
 def drive(chk, cases):
     shards = [cases[i::NW] for i in range(NW)]
     payloads = [{"dir": chk.scratch, "tag": f"s{w}", "cases": [
         {k: v for k, v in c.items() if k not in ("cells", "rings", "layout", "fam")} for c in sh]}
         for w, sh in enumerate(shards)]
-    res = lib.run_workers_parallel("drive/c14.py", payloads, jobs=NW)
+    res = run_parallel(chk, payloads)
     rows = [None] * len(cases)
     for w, (rc, out, err) in enumerate(res):
         for row in out:
